@@ -8,8 +8,7 @@ from harness.lanes import c12_names
 
 class Lane(LaneBase):
     PROP = 'C12'
-    THEOREMS = ['CG.C12.parse_fmt', 'CG.C12.format_var', 'CG.C12.format_relag', 'CG.C12.format_zero',
-                'CG.C12.fmt_injective']
+    THEOREMS = 'auto'
     AUDIT = 'CG/Audit/C12.lean'
     RULE = ('strings: ' + c12_names.NAME_RULE + ' | histories: random mutation histories on TimeSeriesCausalGraph '
             '(add / delete / replace in place and by new name / by (variable, lag), construction from dictionaries '
